@@ -42,10 +42,11 @@ CONSTANTS Chunks,     \* write(2)-level chunks per snapshot, >= 1
           Deviation   \* "none" | "inplace" | "ignore_write_error" | "early_rename" | "unlink_first" | "stat_follows_symlink"
                       \* | "no_trunc" (the temporary file is opened without O_TRUNC)
                       \* | "drop_untouched" (a save serializes only what was touched in this process)
+                      \* | "swallow_read_error" (a failed read of an existing cache file is taken for an empty cache)
 
 VARIABLES mem,        \* version of the cache in memory (0 = the empty cache)
           untouched,  \* part of the memory content was loaded from the file and not yet touched in this process
-          up,         \* "up" | "down" | "refused" | "loaderror"
+          up,         \* "up" | "down" | "refused" | "loaderror" | "readerror"
           pc,         \* next step of the running Save: "idle" | "open" | "write" | "close" | "rename" | "unlink"
           snap,       \* version being saved
           cache, tmp, \* the two files
@@ -187,15 +188,30 @@ Restart == /\ up = "down"
                            ELSE up' = "loaderror" /\ UNCHANGED <<mem, untouched, lastOk, inflight>>
            /\ UNCHANGED <<pc, snap, cache, tmp, fpath, dpath>>
 
+\* NewCache whose READ of the cache file fails (openat or read returns EIO / EACCES / EMFILE; the file itself is an
+\* intact snapshot): the start-up has to fail -- nothing is loaded, the disk stays as it is, and a later start (GiveUp,
+\* then Restart) finds the snapshot.  The deviation takes the failure for "no cache yet" and comes up EMPTY; its next
+\* successful save replaces the intact snapshot although no save was ever interrupted.
+RestartReadFail == /\ up = "down" /\ PathsPass /\ cache.ex /\ cache.len > 0
+                   /\ IF Deviation = "swallow_read_error"
+                      THEN up' = "up" /\ mem' = 0 /\ untouched' = FALSE /\ inflight' = -1
+                      ELSE up' = "readerror" /\ UNCHANGED <<mem, untouched, inflight>>
+                   /\ UNCHANGED <<pc, snap, cache, tmp, lastOk>> /\ keepPaths
+
+\* the start-up that failed on the read error has exited; whoever supervises the plugin starts it again
+GiveUp == /\ up = "readerror"
+          /\ up' = "down"
+          /\ UNCHANGED <<mem, untouched, pc, snap, cache, tmp, lastOk, inflight>> /\ keepPaths
+
 Next == Mutate \/ Touch \/ SaveBegin \/ OpenTmp \/ WriteTmp \/ CloseTmp \/ Unlink \/ Rename \/ WriteLate \/ SaveOk \/ Fail \/ Crash
-        \/ Tamper \/ Repair \/ Restart
+        \/ Tamper \/ Repair \/ Restart \/ RestartReadFail \/ GiveUp
 
 Spec == Init /\ [][Next]_vars
 
 -----------------------------------------------------------------------------
 TypeOK == /\ mem \in 0 .. MaxVer /\ snap \in 0 .. MaxVer /\ lastOk \in 0 .. MaxVer /\ inflight \in -1 .. MaxVer
           /\ untouched \in BOOLEAN
-          /\ up \in {"up", "down", "refused", "loaderror"}
+          /\ up \in {"up", "down", "refused", "loaderror", "readerror"}
           /\ pc \in {"idle", "open", "write", "close", "rename", "unlink", "write2", "done"}
           /\ cache.n \in 0 .. Chunks /\ tmp.n \in 0 .. Chunks
           /\ cache.len \in cache.n .. Chunks /\ tmp.len \in tmp.n .. Chunks
@@ -233,5 +249,7 @@ Reach_Refused == up # "refused"
 \* process: the save is the first one after the restart, lastOk is what was loaded); a save starts while part of the
 \* memory is only loaded; and that save gets reloaded (the file on disk was written while `untouched` held)
 Reach_SaveOverLongerLeftover == ~(Running /\ pc = "open" /\ tmp.ex /\ tmp.len > Size(snap) /\ snap # lastOk /\ inflight = -1 /\ Complete(cache))
+\* a start-up failed on a read error while an intact snapshot other than the empty cache was on disk
+Reach_ReadError == ~(up = "readerror" /\ Complete(cache) /\ cache.id = lastOk /\ lastOk # 0)
 Reach_SaveWhileUntouched == ~(Running /\ pc = "done" /\ untouched /\ snap # lastOk)
 =============================================================================
